@@ -270,6 +270,8 @@ func (c *Ctx) interiorLoc(ref *Term) (Loc, bool) {
 	return nil, false
 }
 
+// mentionsInterior: can the *value* of pointer term t be an interior pointer? (the symbol itself, a name defined
+// as one, or an ite with such a branch; occurrences inside conditions or heap indices do not count)
 func (c *Ctx) mentionsInterior(t *Term) bool {
 	if len(t.Args) == 0 {
 		if _, ok := c.interior[t.Op]; ok {
@@ -280,10 +282,8 @@ func (c *Ctx) mentionsInterior(t *Term) bool {
 		}
 		return false
 	}
-	for _, a := range t.Args {
-		if c.mentionsInterior(a) {
-			return true
-		}
+	if t.Op == "ite" && len(t.Args) == 3 {
+		return c.mentionsInterior(t.Args[1]) || c.mentionsInterior(t.Args[2])
 	}
 	return false
 }
